@@ -163,3 +163,133 @@ def channel_text(o, res, names):
     if e == "log":
         return "".join((res.files.get(n.rsplit(".", 1)[0] + ".log") or b"").decode("latin-1") for n in names)
     raise ValueError(e)
+
+
+# ---- comparison of a run with Outcome(opts, files) printed by TLC -------------------------------------------
+def observe(o, names, res):
+    """what the run showed from outside, in the shape of expected()"""
+    e, w, f = count_channel(channel_text(o, res, names), o.get("gnu"))
+    return {"rc": res.rc, "kept": [(n[:-4] + ".p") in res.files for n in names],
+            "summary": None if o.get("q") else [list(x) for x in summaries(res.out)],
+            "chan": [e, w, f]}
+
+
+def expected(tr, o):
+    """projection of Outcome(opts, files) (TLC, Driver.tla) onto the observable"""
+    fs = tr["exp"]["files"]
+    return {"rc": tr["exp"]["status"], "kept": [bool(f["kept"]) for f in fs],
+            "summary": None if o.get("q") else [[f["sumE"], f["sumW"]] for f in fs if f["assembled"] and not f["fatal"]],
+            "chan": [sum(f["chanE"] for f in fs), sum(f["chanW"] for f in fs), sum(f["chanF"] for f in fs)]}
+
+
+# ---- history programs (C18): several dialects, mode flags, probes, a block of definitions -------------------
+HDIALECTS = {
+    "z80": {"cpu": "z80", "ok": "nop", "jump": "jp", "byte": "db\t%s", "res": "ds\t1", "other": "8051"},
+    "8051": {"cpu": "8051", "ok": "nop", "jump": "ljmp", "byte": "db\t%s", "res": "ds\t1", "other": "z80"},
+    "68000": {"cpu": "68000", "ok": "nop", "jump": "jmp", "byte": "dc.b\t%s,0", "res": "ds.b\t2", "other": "68020"},
+    "default": {"cpu": None, "ok": "nop", "jump": "jmp", "byte": "dc.b\t%s,0", "res": "ds.b\t2", "other": "68020"},
+}
+M68K_ONLY = ("padding", "supmode")
+
+
+def hist_dialects(lines):
+    """dialects a file of line classes can be rendered in"""
+    need68k = any(ln["k"] == "flag" and ln["f"] in M68K_ONLY for ln in lines)
+    probecpu = any(ln["k"] == "probe" and ln["f"] == "cpu" for ln in lines)
+    if probecpu:
+        return ["default"]
+    if need68k:
+        return ["68000", "default"]
+    return ["z80", "8051", "68000", "default"]
+
+
+def render_hist_file(lines, dialect, fno, defs=True):
+    """C18 rendering: every file carries the same block of definitions (macro, function, structure, symbol,
+    section): anything that survives into the next file collides there."""
+    dl = dict(HDIALECTS[dialect])
+    out = []
+    if dl["cpu"]:
+        out.append("\tcpu\t" + dl["cpu"])
+    if defs:
+        out += ["lkmac\tmacro", "\t" + dl["ok"], "\tendm", "lkfn\tfunction x,x+1", "lkst\tstruct",
+                "lkfa\t" + dl["res"], "\tendstruct", "lksy\tequ\t7", "\tsection\tlksec", "lkloc:",
+                "\tendsection"]
+    for i, ln in enumerate(lines, 1):
+        k = ln["k"]
+        if k == "ok":
+            out.append("\t" + dl["ok"])
+        elif k == "err":
+            out.append("\tbogus")
+        elif k == "fwd":
+            out += ["\t%s\tfw%d_%d" % (dl["jump"], fno, i), "fw%d_%d:" % (fno, i)]
+        elif k == "expect":
+            out.append("\texpect\t1200")
+        elif k == "flag":
+            f = ln["f"]
+            if f in FLAG_ON:
+                out.append("\t" + FLAG_ON[f])
+            elif f == "padding":
+                out.append("\tpadding\toff")
+            elif f == "supmode":
+                out.append("\tsupmode\ton")
+            elif f == "org":
+                out.append("\torg\t4660")
+            elif f == "radix":
+                out.append("\tradix\t16")
+            elif f == "charset":
+                out.append("\tcharset\t'a',1")
+            elif f == "sym":
+                out.append("lkflag\tequ\t5")
+            elif f == "cpu":
+                new = dl["other"]
+                out.append("\tcpu\t" + new)
+                if new in HDIALECTS:
+                    dl = dict(HDIALECTS[new])
+            else:
+                raise ValueError(ln)
+        elif k == "probe":
+            f = ln["f"]
+            if f == "dotted":
+                out += ["prb%d\tstruct" % i, "fa%d\t%s" % (i, dl["res"]), "fb%d\t%s" % (i, dl["res"]), "\tendstruct",
+                        "\t" + dl["byte"] % ("prb%d_fb%d+%d" % (i, i, i))]
+            elif f == "relaxed":
+                out.append("\t" + dl["byte"] % ("RELAXED+%d" % (2 * i)))
+            elif f == "padding":
+                out.append("\t" + dl["byte"] % ("PADDING+%d" % (2 * i)))
+            elif f == "supmode":
+                out.append("\t" + dl["byte"] % ("INSUPMODE+%d" % (2 * i)))
+            elif f == "org":
+                out.append("\t" + dl["byte"] % "7")
+            elif f == "radix":
+                out.append("\t" + dl["byte"] % "10")
+            elif f == "charset":
+                out.append("\t" + dl["byte"] % "'a'")
+            elif f == "sym":
+                out.append("\t" + dl["byte"] % ("DEFINED(lkflag)+%d" % (2 * i)))
+            elif f == "cpu":
+                out.append("\t" + dl["ok"])
+            else:
+                raise ValueError(ln)
+        elif k == "open":
+            t = ln["t"]
+            if t == "if0":
+                out += ["\tif\t0", "\tbogus"]
+            elif t == "if1":
+                out.append("\tif\t1")
+            elif t == "mac":
+                out += ["mm%d\tmacro" % i, "\tbogus"]
+            elif t == "rept":
+                out += ["\trept\t2", "\tbogus"]
+            elif t == "sec":
+                out.append("\tsection\tsc%d" % i)
+            elif t == "str":
+                out.append("st%d\tstruct" % i)
+            elif t == "sav":
+                out.append("\tsave")
+            elif t == "pha":
+                out.append("\tphase\t256")
+            else:
+                raise ValueError(ln)
+        else:
+            raise ValueError(ln)
+    return "\n".join(out) + "\n"
